@@ -143,9 +143,9 @@ def audit(prop_id: str, proof_mod: str, extra_files: list[Path]):
         rc, out = run_cmd(["lake", "env", "lean", str(af)], cwd=LEAN, timeout=900)
     axioms = {}
     # output: "'Name' depends on axioms: [a, b]"  or "'Name' does not depend on any axioms"
-    for m in re.finditer(r"'([^']+)' depends on axioms: \[([^\]]*)\]", out):
+    for m in re.finditer(r"^'(.+)' depends on axioms: \[([^\]]*)\]", out, re.M):
         axioms[m.group(1)] = [a.strip() for a in m.group(2).replace("\n", " ").split(",") if a.strip()]
-    for m in re.finditer(r"'([^']+)' does not depend on any axioms", out):
+    for m in re.finditer(r"^'(.+)' does not depend on any axioms", out, re.M):
         axioms[m.group(1)] = []
     err = out if rc != 0 else ""
     return thms, axioms, err
